@@ -216,6 +216,125 @@ def csv_harness(ctx, cfg):
         _compare(ctx, p, tr2)
 
 
+# ------------------------------------------------------------------ GEFF with segmentation
+class _LazySeg:
+    """what load_segmentation returns (a lazy array): ndim, shape, indexing, compute()"""
+
+    def __init__(self, arr):
+        self.arr = arr
+        self.ndim, self.shape, self.dtype = arr.c.ndim, tuple(arr.c.shape), arr.dtype
+
+    def __getitem__(self, k):
+        return self.arr[k]
+
+    def compute(self):
+        return self.arr.copy()
+
+
+def geff_seg_harness(ctx, cfg):
+    """export_to_geff of tracks WITH a segmentation, then import_from_geff with the exported segmentation.
+
+    The label array is realised (solver-guided case split over the finite label domain 0..N): the node positions and
+    areas of a reachable state are the true centroids / pixel counts of the masks, which are rational functions of the
+    mask bits; ids, times and the forest stay symbolic."""
+    import funtracks.import_export._validation as V
+    from harness.relabel import _has_seg_ids_at_coords
+
+    saved = X._install()
+    X.CAP.clear()
+    N = cfg["N"]
+    try:
+        c = dict(cfg)
+        c.update(seg=True, sym_pos=False, bound_lids=True, max_label=N)
+        p = X.build(ctx, c)
+        ctx.allow_realise = True
+        shape = p.seg.c.shape
+        # Inv item 5: every non-zero label is an alive node of that frame; every alive node has a pixel in its frame
+        cs = []
+        for idx in np.ndindex(*shape):
+            cell = p.seg0[idx]
+            cs.append(Or([cell == 0] + [And(cell == p.ids[i], p.sh0.al[i], p.t0[i] == idx[0]) for i in range(N)]))
+        for i in range(N):
+            cs.append(Implies(p.sh0.al[i], Or([And(p.seg0[idx] == p.ids[i], p.t0[i] == idx[0])
+                                               for idx in np.ndindex(*shape)])))
+        ctx.assume(And(cs))
+        real = np.asarray(p.seg).astype(np.int64)
+        ctx.input("seg", [int(x) for x in real.flat])
+        pos0 = {}
+        for i in range(N):
+            where = np.argwhere(real == p.ids[i])
+            if len(where):
+                pos0[i] = [float(x) for x in where[:, 1:].mean(axis=0)]
+                p.g.nattr[i][POS] = list(pos0[i])
+                p.g.nattr[i]["area"] = float(len(where))
+            X.gx.export_to_geff(p.tr, X._Dir(), node_ids=None)
+        w = dict(X.CAP["write"])
+        zarr_arr = X.CAP["zarr"].arr
+    finally:
+        X._restore(saved)
+        X.CAP.clear()
+    G = w["graph"]
+    store = _GraphStore(G, cfg.get("node_order"))
+    axis = list(w.get("axis_names") or [])
+    ctx.input("node_order", cfg.get("node_order"))
+    ctx.input("op", "roundtrip_geff_seg")
+    ctx.input("select", None)
+    if not store.ids:
+        ctx.tag("empty")
+        return
+    # concrete columns stay concrete numpy arrays (coordinates: the importer converts them to pixel indices)
+    for k, col in list(store.cols.items()):
+        if all(z3.is_int_value(e) or z3.is_rational_value(e) for e in col.c.flat):
+            vals = [float(e.as_fraction()) if not z3.is_int_value(e) else e.as_long() for e in col.c.flat]
+            store.cols[k] = np.array(vals, dtype=col.dtype).reshape(col.c.shape)
+    # the finding's handle: is the centroid pixel of the LAST stored node one of its own pixels?
+    last = store.ids[-1]
+    li = p.ids.index(last)
+    cpix = tuple(int(x) for x in pos0[li])  # (funtracks: int(c / scale), scale 1)
+    t_last = int(np.argwhere(real == last)[0][0])
+    ctx.env.update(last_centroid_outside_mask=bool(real[(t_last,) + cpix] != last))
+    ctx.input("last_centroid_outside_mask", bool(real[(t_last,) + cpix] != last))
+    name_map = {"time": axis[0], "pos": axis[1:], "track_id": TID, "lineage_id": LID}
+    ctx.input("name_map", name_map)
+    M.install(store)
+    keep = dict(ls=M.tb.load_segmentation, rd=M.tb.read_dims, has=V.has_seg_ids_at_coords)
+    M.tb.load_segmentation = lambda seg: _LazySeg(zarr_arr)
+    M.tb.read_dims = lambda seg: zarr_arr.c.ndim
+    V.has_seg_ids_at_coords = _has_seg_ids_at_coords
+    exc = tr2 = None
+    try:
+        with warnings.catch_warnings():
+            warnings.simplefilter("ignore")
+            tr2 = M.gi.import_from_geff("store.zarr", node_name_map=dict(name_map), segmentation_path="seg.zarr",
+                                        scale=p.scale0)
+    except Unsupported:
+        raise
+    except Exception as e:
+        exc = e
+    finally:
+        M.remove()
+        M.tb.load_segmentation, M.tb.read_dims, V.has_seg_ids_at_coords = keep["ls"], keep["rd"], keep["has"]
+    ctx.tag("roundtrip")
+    if ctx.env["last_centroid_outside_mask"]:
+        ctx.tag("witness:last_node_not_convex")
+    ctx.env.update(exc=repr(exc))
+    ctx.oblige("C14.reimport_accepted", exc is None, "C14")
+    if exc is not None:
+        return
+    p.pos0 = {i: [z3.RealVal(x) for x in v] for i, v in pos0.items()}
+    for i in range(N):
+        p.pos0.setdefault(i, [z3.RealVal(0)] * (len(shape) - 1))
+    _compare(ctx, p, tr2)
+    s2 = tr2.segmentation
+    if isinstance(s2, np.ndarray):
+        from sx.arr import _as_sarr
+
+        s2 = _as_sarr(s2)
+    ok = isinstance(s2, SArr) and s2.c.shape == p.seg0.shape
+    ctx.oblige("C14.same_segmentation", And([z3.BoolVal(bool(ok))] + ([a == b for a, b in zip(s2.c.flat, p.seg0.flat)]
+                                                                    if ok else [])), "C14")
+
+
 # ------------------------------------------------------------------ internal save format
 class _JsonRefused(TypeError):
     pass
@@ -435,6 +554,8 @@ def replay(f):
             warnings.simplefilter("ignore")
             if inp["op"] == "roundtrip_internal":
                 return _replay_internal(inp, ob, tmp)
+            if inp["op"] == "roundtrip_geff_seg":
+                return _replay_geff_seg(inp, ob, tmp)
             inp2 = dict(inp)
             inp2["seg"] = None
             tr = build_real(inp2)
@@ -587,4 +708,57 @@ def _replay_internal(inp, ob, tmp):
     if ob == "C14.loaded_lookups_cover_nodes":
         ta = tr2.track_annotator
         return any(not any(n in v for v in ta.tracklet_id_to_nodes.values()) for n in g2.nodes), detail
+    return False, "no oracle for " + ob
+
+
+def _replay_geff_seg(inp, ob, tmp):
+    from funtracks.data_model import SolutionTracks
+    from funtracks.import_export.geff._export import export_to_geff
+    from funtracks.import_export.geff._import import import_from_geff
+
+    N, shape = inp["N"], tuple(inp["shape"])
+    seg = np.array(inp["seg"], dtype=np.dtype(inp.get("seg_dtype", "int64"))).reshape(shape)
+    g = nx.DiGraph()
+    for i in (reversed(range(N)) if inp.get("node_order") == "reversed" else range(N)):
+        if inp["alive"][i]:
+            g.add_node(i + 1, **{TK: inp["t"][i], TID: inp["tid"][i], LID: inp["lid"][i]})
+    for i in range(N):
+        for j in range(N):
+            if inp["adj"][i][j]:
+                g.add_edge(i + 1, j + 1)
+    # positions and areas are computed from the masks by the real constructor (a reachable state)
+    tr = SolutionTracks(g, segmentation=seg.copy(), ndim=len(shape), time_attr=TK, tracklet_attr=TID,
+                        lineage_attr=LID, scale=inp.get("scale"))
+    g0 = nx.DiGraph(tr.graph)
+    a0 = {n: (tr.get_time(n), [float(x) for x in tr.get_position(n)], tr.get_track_id(n)) for n in g0.nodes}
+    exc = tr2 = None
+    try:
+        export_to_geff(tr, tmp / "out")
+        tr2 = import_from_geff(tmp / "out" / "tracks", node_name_map=dict(inp["name_map"]),
+                               segmentation_path=tmp / "out" / "segmentation", scale=inp.get("scale"))
+    except Exception as e:
+        exc = e
+    detail = (f"original nodes={ {n: a0[n] for n in sorted(a0)} } edges={sorted(g0.edges)} seg={seg.tolist()} "
+              f"name_map={inp['name_map']} -> exc={exc!r}")
+    if ob == "C14.reimport_accepted":
+        return exc is not None, detail
+    if exc is not None:
+        return False, detail
+    g2 = tr2.graph
+    a2 = {n: (tr2.get_time(n), [float(x) for x in tr2.get_position(n)], tr2.get_track_id(n)) for n in g2.nodes}
+    detail += f" reimported nodes={ {n: a2[n] for n in sorted(a2)} } edges={sorted(g2.edges)}"
+    common = [n for n in g0.nodes if n in g2.nodes]
+    if ob == "C14.same_nodes":
+        return sorted(g2.nodes) != sorted(g0.nodes), detail
+    if ob == "C14.same_edges":
+        return sorted(g2.edges) != sorted(g0.edges), detail
+    if ob == "C14.same_times":
+        return any(not M._eq(a0[n][0], a2[n][0]) for n in common), detail
+    if ob == "C14.same_positions":
+        return any(not M._eq(a0[n][1], a2[n][1]) for n in common), detail
+    if ob == "C14.same_track_ids":
+        return any(a0[n][2] != a2[n][2] for n in common), detail
+    if ob == "C14.same_segmentation":
+        s2 = np.asarray(tr2.segmentation)
+        return not (s2.shape == seg.shape and np.array_equal(s2, seg)), detail + f" reimported seg={s2.tolist()}"
     return False, "no oracle for " + ob
